@@ -18,7 +18,7 @@ UNITS = [
              ("root", "r.root == step.root"),
              ("nodes", "is_nodes(step.data) ==> is_nodes(r.data)"),
          ]),
-    Unit(name="Segment::process", file=F, impl="impl Query for Segment", fn="process", order=61,
+    Unit(name="Segment::process", calls=['Selector::process', 'State::flat_map'], file=F, impl="impl Query for Segment", fn="process", order=61,
          trait_method=True, serves=["C01", "C02"],
          attrs=["#[verifier::exec_allows_no_decreases_clause]"],
          impl_extra="""
@@ -27,7 +27,7 @@ UNITS = [
 """,
          ensures=[("rel", "self.process_rel(step, r)")],
          body_prefix="proof { match self { Segment::Descendant(b) => { lemma_descendant_containers(**b, nodes(step.data), step.root); } _ => {} } }"),
-    Unit(name="Vec<Segment>::process", file=J, impl="impl Query for Vec<Segment>", fn="process", order=62,
+    Unit(name="Vec<Segment>::process", calls=['Segment::process'], file=J, impl="impl Query for Vec<Segment>", fn="process", order=62,
          trait_method=True, serves=["C01", "C02"],
          impl_extra="""
     open spec fn process_pre<'a, T: Queryable>(&self, state: State<'a, T>) -> bool { wf_segments(self@) }
@@ -39,7 +39,7 @@ UNITS = [
          closures={1: Cl(expect="segment.process(next)", types=["State<'a, T>", "&Segment"], ret="(o: State<'a, T>)",
                          requires=[("wf", "wf_segment(*segment)")],
                          ensures=[("rel", "seg_rel(*segment, next, o)")])}),
-    Unit(name="JpQuery::process", file=J, impl="impl Query for JpQuery", fn="process", order=62,
+    Unit(name="JpQuery::process", calls=['Vec<Segment>::process'], file=J, impl="impl Query for JpQuery", fn="process", order=62,
          trait_method=True, serves=["C01", "C02"],
          impl_extra="""
     open spec fn process_pre<'a, T: Queryable>(&self, state: State<'a, T>) -> bool { wf_segments(self.segments@) }
